@@ -89,9 +89,35 @@ impl Prop for C13 {
         let mut control = false;
         match pert {
             Pert::AddUnrelated => {
-                // a key of the universe the observed file does not import and nobody defines
+                // a key of the universe the observed file does not import and nobody defines;
+                // preferably one the observed file REFERS to by qualified name without importing it
                 let mut found = None;
+                let mut qualified_refs: Vec<Vec<String>> = Vec::new();
+                case.project.files[obs].for_each_top_type(&mut |t, _| {
+                    t.for_each(
+                        &mut |x, _| {
+                            if let TyM::Custom(n) = x {
+                                if n.len() >= 2 {
+                                    qualified_refs.push(n.clone());
+                                }
+                            }
+                        },
+                        0,
+                    )
+                });
+                qualified_refs.retain(|n| {
+                    let key = n.join(".");
+                    !obs_imports.contains(&key) && !case.keys.contains_key(&key) && !key.starts_with("android.") && !key.starts_with("java.")
+                });
+                if !qualified_refs.is_empty() && s.chance(3, 4) {
+                    let n = s.pick(&qualified_refs).clone();
+                    found = Some((n[..n.len() - 1].to_vec(), n[n.len() - 1].clone()));
+                    st.class("add-unrelated:qualified-reference-target");
+                }
                 for _ in 0..6 {
+                    if found.is_some() {
+                        break;
+                    }
                     let pk = s.pick(gen::U_PKGS);
                     let nm = s.pick(gen::U_NAMES);
                     let key = format!("{}.{}", pk.join("."), nm);
